@@ -233,9 +233,16 @@ impl Listener {
                         errorfds.as_mut_ptr(),
                         &mut timeout,
                     );
-                    if ret != EINTR && ret != EAGAIN {
-                        break;
+                    if ret == -1 {
+                        // select() reports failure through errno, not through its return value
+                        match std::io::Error::last_os_error().raw_os_error() {
+                            // interrupted by a signal: wait for the rest of the time
+                            // (Linux leaves the remaining time in `timeout`)
+                            Some(e) if e == EINTR || e == EAGAIN => continue,
+                            _ => return Err(std::io::Error::last_os_error()).map_err(map_context!()),
+                        }
                     }
+                    break;
                 }
                 if !FD_ISSET(fd, readfs.as_mut_ptr()) {
                     return Err(context!(ErrorKind::Timeout));
